@@ -6,7 +6,7 @@ META = {
     "level": "other",
     "rule": "V1 name class per Definition variant (path-sensitive walk of rename's match); "
             "V2 exactly-one-token gate; V3 locality gate on prepare_rename and rename; "
-            "V4 sibling agreement of the gate sets; V5 server forwards new_name / maps Err. "
+            "V4 sibling agreement of the gate sets; V5 server forwards new_name / maps Err; V6 a package's locality is computed from its own root path (build/packages) only; V7 both dependency tables of gleam.toml are followed. "
             "An obligation is non-trivial when its verdict needed a path or dominance argument.",
     "explanation": "Decides the validation/gating clauses of C08 for every input at once by reading "
                    "the MIR of ide::ide::rename::{rename,prepare_rename,find_def} and the LSP handler: "
@@ -277,6 +277,56 @@ def run(F, res, tier):
 
     # ---- V5 server side
     v5(F, res)
+    v6(F, res)
+
+
+# gleam.toml tables whose entries `gleam deps download` puts under build/packages (Gleam manifest format)
+MANIFEST_DEP_TABLES = ("dependencies", "dev-dependencies")
+
+
+def v6(F, res):
+    """V6: which packages are foreign is decided from each package's OWN root path (…/build/packages/<name>), by
+    nothing the caller passes in and by nothing about the package that happens to depend on it."""
+    ag = F.fn("glas::server::Server::assemble_graph")
+    d = FL.Defs(ag)
+    adds = [(b, t) for b, t in ag.calls() if FL.short(callee(t) or callee_def(t)) == "PackageGraph::add_package"]
+    if not adds:
+        res.anchor_missing("V6", "PackageGraph::add_package call in Server::assemble_graph")
+        return
+    # V7: every table of gleam.toml whose entries gleam fetches into build/packages is followed — a fetched package that
+    # is never registered has no package of its own, its files fall to the enclosing (local) root package and become
+    # renameable
+    lits = set()
+    for p_ in F.with_closures(ag.path):
+        f_ = F.fns[p_]
+        for b_, i_, s_ in f_.stmts():
+            rv_ = s_.get("rv") or {}
+            for key in ("op", "a", "b"):
+                o_ = rv_.get(key)
+                if isinstance(o_, dict) and isinstance(o_.get("k"), dict) and "str" in o_["k"]:
+                    lits.add(o_["k"]["str"])
+        for b_, t_ in f_.calls():
+            for a_ in t_["args"]:
+                if isinstance(a_.get("k"), dict) and "str" in a_["k"]:
+                    lits.add(a_["k"]["str"])
+    for table in MANIFEST_DEP_TABLES:
+        res.ob("V7", "assemble_graph/follows/%s" % table, "assemble_graph reads the `%s` table of gleam.toml (packages fetched for it live under "
+               "build/packages and must be registered as foreign packages)" % table, table in lits, where=ag.loc(),
+               how="gleam.toml keys read: %s" % sorted(x for x in lits if x.replace("-", "").isalpha() and len(x) < 20))
+    names = [x.get("name") for x in ag.d.get("debug", [])]
+    for i, (b, t) in enumerate(adds):
+        dep = FL.depends(F, ag, d, t["args"][-1], use_bb=b)
+        argn = {}
+        for dbg in ag.d.get("debug", []):
+            pl = dbg.get("place") or {}
+            if isinstance(pl, dict) and not pl.get("p") and pl.get("l") in dep["args"]:
+                argn[pl["l"]] = dbg.get("name")
+        params = sorted(argn.get(a, "_%d" % a) for a in dep["args"])
+        ok = params == ["root_path"] and {"packages", "build"} <= dep["strs"] and any(c.endswith("Path::ends_with") or c.endswith("Path::components") or c.endswith("Path::starts_with") for c in dep["calls"])
+        res.ob("V6", "assemble_graph/locality-from-own-path/%d" % i,
+               "the `is_local` flag a package is registered with is computed from that package's own root path (its parent directories being "
+               "`build/packages`) and from no other parameter", ok, where=ag.loc(t["ln"]),
+               how="depends on parameters %s, path literals %s" % (params, sorted(x for x in dep["strs"] if len(x) < 20)))
 
 
 def v5(F, res):
